@@ -17,7 +17,7 @@ import harness
 import c03
 from facts import Facts, callee_key, norm, region_of
 from flow import resolve, resolve_place, leaves, show, walk
-from cfgq import calls_to, region_calls_to, arg_expr, arg_leaves, variant_arm_blocks, assigns_to_field, has_field
+from cfgq import calls_to, region_calls_to, arg_expr, arg_leaves, variant_arm_blocks, assigns_to_field, has_field, call_result_edges
 from c16 import recv_name
 
 M = "cooklang::metadata::"
@@ -52,7 +52,7 @@ def run(chk: harness.Check):
         "matching public Metadata accessor must contain the same function while the accessor reads the same key constant; process_frontmatter and "
         "metadata() call check_std_entry with self.converter and store its Servings in content.data. D2: integer arithmetic inventory restricted to the "
         "metadata module. D3: in value_as_servings no order-changing or element-removing Vec method is applied to the vector that is returned, and every "
-        "dedup/windows test runs on a vector that was sorted first. D7: the by-name minutes unit is a Time unit before it is converted to. D6: the number of a number-unit pair is cut by find(|c| !c.is_ascii_digit() && c != '.'). D5: nothing reachable from check_std_entry is one of the error-discarding accessors (value_as_*(..).ok()). D4: value_as_tags returns a vector it fills by pushes that lie under the false outcomes of is_empty() and contains(). Necessary conditions: what the parsers accept is not decided.")
+        "dedup/windows test runs on a vector that was sorted first. D7: the by-name minutes unit is a Time unit before it is converted to. D6: the number of a number-unit pair is cut by find(|c| !c.is_ascii_digit() && c != '.'). D5: nothing reachable from check_std_entry is one of the error-discarding accessors (value_as_*(..).ok()). D4: value_as_tags returns a vector it fills by pushes that lie under the false outcomes of is_empty() and contains(). D8: an Ok of value_as_locale lies under a successful two-ASCII-letter test of the language and, when it can carry a dialect, of the dialect. Necessary conditions: what the parsers accept is not decided.")
     chk.trusted = ["rustc MIR, resolved callees", "tables/narrow_arith.toml"]
     chk.analysed = {"facts": th}
     d1_siblings(chk, F)
@@ -64,6 +64,51 @@ def run(chk: harness.Check):
     d5_strict(chk, F)
     d6_number_part(chk, F)
     d7_minutes_is_time(chk, F)
+    d8_locale(chk, F)
+
+
+def d8_locale(chk, F):
+    """'locale as `ll` or `ll_CC`; a value outside the documented forms gives a warning and nothing from the accessor':
+    value_as_locale returns Ok only under a successful two-letter test of the language part, and an Ok that can carry a
+    dialect additionally lies under a successful test of the dialect part (an invalid dialect is an error, it is not dropped);
+    the test itself compares the length with 2 and checks every char with is_ascii_alphabetic."""
+    R = "C13.D8-locale"
+    fs = [g for g in F.find("metadata::value_as_locale") if not g.is_closure()]
+    if len(fs) != 1:
+        chk.fail("anchor-missing", "value_as_locale", "", "anchor-missing: metadata::value_as_locale not found")
+        return
+    f = fs[0]
+    vcalls = calls_to(f, "value_as_locale::validate")
+    chk.floor(R, "validate calls in value_as_locale", len(vcalls), 1, f"{f.file}:{f.line}")
+    true_edges = {}
+    for b, t in vcalls:
+        te, fe = call_result_edges(f, b)
+        true_edges[b] = te
+    oks = [(i, st) for i, j, st in f.iter_stmts() if st["k"] == "assign" and st["rv"].get("k") == "agg" and st["rv"].get("agg") == "adt"
+           and norm(st["rv"]["adt"]).endswith("result::Result") and st["rv"].get("variant") == "Ok"]
+    chk.floor(R, "Ok results of value_as_locale", len(oks), 1, f"{f.file}:{f.line}")
+    for n, (i, st) in enumerate(oks):
+        e = resolve(f, st["rv"]["ops"][0])
+        dial = e[4][1][1] if e[0] == "agg" and e[1] == "tuple" and len(e[4]) == 2 else None
+        doms = [b for b, te in true_edges.items() if any(f.edge_dominates(x, i) for x in te)]
+        no_dialect = dial is not None and dial[0] == "agg" and dial[1] == "adt" and dial[3] == "None"
+        need = 1 if no_dialect else 2
+        chk.expect(len(doms) >= need, R, f"value_as_locale|Ok#{n}", f"{f.file}:{st.get('line')}",
+                   f"a locale is accepted under {len(doms)} successful validate test(s) where {need} are needed ({'language only' if no_dialect else 'language and dialect'}): "
+                   "a malformed language or dialect part would be accepted or silently dropped instead of refused",
+                   sample=f"{f.file}:{st.get('line')}: Ok under {need} validate(..) == true")
+    vs = [g for g in F.find("metadata::value_as_locale::validate") if not g.is_closure()]
+    if len(vs) != 1:
+        chk.fail("anchor-missing", "value_as_locale::validate", "", "anchor-missing: value_as_locale::validate not found")
+        return
+    v = vs[0]
+    eq2 = any(st["k"] == "assign" and st["rv"].get("k") == "bin" and st["rv"].get("op") == "Eq" and
+              any(str((st["rv"][x].get("const") or {}).get("bits")) == "2" for x in ("l", "r")) for _, _, st in v.iter_stmts())
+    inner = [callee_key(t) or "" for g in F.region_funcs(v.key) for _, t in g.calls()]
+    alpha = any(c.endswith("is_ascii_alphabetic") for c in inner) and any(c.endswith(("Iterator>::all", "Iterator::all")) for c in inner)
+    chk.expect(eq2 and alpha, R, "validate|two ascii letters", f"{v.file}:{v.line}",
+               f"the locale part test is no longer `len == 2 && all(is_ascii_alphabetic)` (len==2: {eq2}, all alphabetic: {alpha})",
+               sample=f"{v.file}:{v.line}: len() == 2 && chars().all(is_ascii_alphabetic)")
 
 
 def d7_minutes_is_time(chk, F):
